@@ -61,12 +61,53 @@ func init() {
 			once = append(once, map[string]any{"r": r1, "text": string(b1)})
 			twice = append(twice, map[string]any{"r": r2, "text": string(b2)})
 		}
+		// history on one Resolved: the caller edits, in place, every container of a result it received; later ApplyDefaults calls
+		// (same and other instances) must still insert the declared defaults, i.e. give the texts of the first pass
+		aliasFree := true
+		aliasDetail := ""
+		for sweep := 0; sweep < 2; sweep++ {
+			for i, it := range a.Insts {
+				txt, _ := untag(it)
+				var v any
+				if err := json.Unmarshal(txt, &v); err != nil {
+					continue
+				}
+				r := applyOnce(rs, &v)
+				b, _ := json.Marshal(v)
+				want := once[i].(map[string]any)
+				if aliasFree && (r != want["r"] || string(b) != want["text"]) {
+					aliasFree = false
+					aliasDetail = fmt.Sprintf("instance %d: first call %s, after other results were edited in place %s", i, want["text"], string(b))
+				}
+				scribble(v)
+			}
+		}
+		res["alias_free"] = aliasFree
+		res["alias_detail"] = aliasDetail
 		res["once"] = once
 		res["twice"] = twice
 		res["before"] = before
 		res["after"] = after
 		return res, nil
 	})
+}
+
+// scribble edits every map and slice reachable from v in place.
+func scribble(v any) {
+	switch c := v.(type) {
+	case map[string]any:
+		for _, x := range c {
+			scribble(x)
+		}
+		c["#scribble"] = true
+	case []any:
+		for _, x := range c {
+			scribble(x)
+		}
+		if len(c) > 0 {
+			c[0] = "#scribble"
+		}
+	}
 }
 
 func applyOnce(rs interface{ ApplyDefaults(any) error }, vp *any) (out string) {
